@@ -82,6 +82,7 @@ def fluid_case(draw):
     c["combo"] = draw(st.sampled_from(COMBOS))
     c["T_first"] = draw(st.booleans())
     c["Lambda"] = draw(st.sampled_from([0.0, 0.0, 0.7, -1.3]))
+    c["kappa"] = draw(st.sampled_from([KAPPA, KAPPA, 1.0, 2.5]))
     return c
 
 
@@ -93,6 +94,7 @@ def tensor_case(draw):
     c["logT"] = draw(fl(-2.0, 2.0))
     c["Tc"] = [draw(fl(-1.0, 1.0)) for _ in range(10)]
     c["Lambda"] = draw(st.sampled_from([0.0, 0.0, 0.7, -1.3]))
+    c["kappa"] = draw(st.sampled_from([KAPPA, KAPPA, 1.0, 2.5]))
     return c
 
 
@@ -205,7 +207,7 @@ def effective_fluid(case, fl_):
 # independent projections of a stress-energy tensor (textbook 3+1)
 
 
-def project(T, r, coords, Lambda):
+def project(T, r, coords, Lambda, kappa=KAPPA):
     al, bu = r.al, r.bu
     out = {}
     out["rho_n"] = (T[0, 0] - 2 * sum(bu[i] * T[0, i + 1] for i in range(3))
@@ -233,7 +235,7 @@ def project(T, r, coords, Lambda):
     Jd = sg * np.einsum('ijk,j...,k...->i...', e, coords, Su)
     out["angmomdown3_n"] = Jd
     out["angmomup3_n"] = np.einsum('ij...,j...->i...', r.gup, Jd)
-    out["st_Ricci_down4"] = Lambda * r.g4 + KAPPA * (T - 0.5 * out["Ttrace"]
+    out["st_Ricci_down4"] = Lambda * r.g4 + kappa * (T - 0.5 * out["Ttrace"]
                                                      * r.g4)
     return out
 
@@ -352,14 +354,15 @@ def check_projections(note, cm, rel, r, want, Tscale, coords, tag,
     return got
 
 
-def check_T4(note, cm, rel, r, T, want, tag, Lambda, ricci3_first=True):
+def check_T4(note, cm, rel, r, T, want, tag, Lambda, ricci3_first=True,
+             kappa=KAPPA):
     """Tup4, Ttrace (trace4 branch), Ricci from T; frame S."""
     e4 = r.e4
     Ts = P.eq(T, 'dd', e4)
     TS = P.amax(Ts, 2)
     # the else-branch of st_Ricci_down3 (st_Ricci_down4 not cached yet)
     want_R = want["st_Ricci_down4"]
-    Rs = np.abs(Lambda) + KAPPA * TS * (1 + 8 * r.M4us)
+    Rs = np.abs(Lambda) + kappa * TS * (1 + 8 * r.M4us)
     if ricci3_first:
         R3 = get(rel, note, "st_Ricci_down3")
         if R3 is not None:
@@ -391,6 +394,11 @@ def test_fluid(case, note):
     data.update(fluid_inputs(case, fl_))
     rel = make_rel(f["fd"], data, Lambda=case["Lambda"],
                    clear_cache_every_nbr_calc=10**9)
+    kappa = float(case.get("kappa", KAPPA))
+    if kappa != KAPPA:
+        # Einstein's constant is a documented public attribute
+        rel.kappa = kappa
+        note.cls("kappa!=8pi")
     shape = r.shape
     one = np.ones(shape)
     d, d4, e4, al = r.d, r.d4, r.e4, r.al
@@ -585,7 +593,7 @@ def test_fluid(case, note):
     # expected projections: closed forms when T is right, otherwise
     # independent projections of what aurel produced (see ASSUMPTIONS)
     Tbase = T_ref if okT else T
-    want = project(Tbase, r, coords, case["Lambda"])
+    want = project(Tbase, r, coords, case["Lambda"], kappa)
     tag = "closed-form" if okT else "projection-of-aurel-T"
     if okT:
         want.update(closed_forms(fe, r, coords, case["Lambda"]))
@@ -599,6 +607,7 @@ def test_fluid(case, note):
                  sc_tr, kap=r.kap)
         rel2 = make_rel(f["fd"], data, Lambda=case["Lambda"],
                         clear_cache_every_nbr_calc=10**9)
+        rel2.kappa = kappa
         get(rel2, note, "Tdown4")
         tr2 = get(rel2, note, "Ttrace")
         if tr2 is not None:
@@ -610,7 +619,7 @@ def test_fluid(case, note):
             cm.close(f"Ttrace:trace4-branch:{tag}", tr, want["Ttrace"],
                      sc_tr, kap=r.kap)
     check_T4(note, cm, rel, r, Tbase, want, tag, case["Lambda"],
-             ricci3_first=case["T_first"])
+             ricci3_first=case["T_first"], kappa=kappa)
 
     # --- conserved variables ----------------------------------------------
     sg = np.sqrt(r.detgam)
@@ -664,12 +673,16 @@ def test_tensor(case, note):
     data["Tdown4"] = T.copy()
     rel = make_rel(f["fd"], data, Lambda=case["Lambda"],
                    clear_cache_every_nbr_calc=10**9)
+    kappa = float(case.get("kappa", KAPPA))
+    if kappa != KAPPA:
+        rel.kappa = kappa
+        note.cls("kappa!=8pi")
     coords = f["fd"].cartesian_coords
     note.nt(bool(geo_nt and np.all(P.amax(Th, 2) > 0)))
     Tg = get(rel, note, "Tdown4")
     if Tg is not None and not np.array_equal(Tg, T):
         note.fail("Tdown4:echo", {})
-    want = project(T, r, coords, case["Lambda"])
+    want = project(T, r, coords, case["Lambda"], kappa)
     TS = P.amax(Th, 2)
     check_projections(note, cm, rel, r, want, TS, coords, "supplied-T")
     tr = get(rel, note, "Ttrace")
@@ -685,7 +698,7 @@ def test_tensor(case, note):
                      r.M4us * Tss + r.Gi * TS + TS * (1 + r.b)**2,
                      kap=r.kap)
     check_T4(note, cm, rel, r, T, want, "supplied-T", case["Lambda"],
-             ricci3_first=bool(case["seed"] % 2))
+             ricci3_first=bool(case["seed"] % 2), kappa=kappa)
     note.worst = cm.worst
 
 
